@@ -26,6 +26,7 @@ F_D9 = "F-D9-discarded-readahead"
 F_D13 = "F-D13-lone-cr-line-count"
 F_TOK = "F-D14-stringstart-stale-token"
 F_STREAM = "F-D15-stream-token-offset"
+F_YAML = "F-D16-yaml-character-index"
 
 # ---------------------------------------------------------------------------
 # run-length encoded texts
@@ -44,7 +45,11 @@ class Text:
             u = u.encode()
         if len(u) == 0 or n <= 0:
             return self
-        if n == 1 and self.segs and self.segs[-1][1] == 1 and len(self.segs[-1][0]) + len(u) <= 6000:
+        if n == 1 and len(u) > 3000:          # keep explicit units short (TLC walks them recursively)
+            for i in range(0, len(u), 3000):
+                self.add(u[i:i + 3000])
+            return self
+        if n == 1 and self.segs and self.segs[-1][1] == 1 and len(self.segs[-1][0]) + len(u) <= 3000:
             self.segs[-1] = (self.segs[-1][0] + u, 1)
         else:
             self.segs.append((bytes(u), n))
@@ -307,7 +312,7 @@ def witness_cases():
     for trail in ["", "\n\n\n5\n6\n"]:
         for tr in ["pipe", "file", "redirect"]:
             t = Text().add(b'"').add(b"a", 40000).add('"\n2\n3\n{"a":x}\n' + trail)
-            c = {"kind": "json", "text": t, "err": {"k": "syntax", "p": 40002 + 4 + 5}, "fault": "witness-d9", "term": "LF", "style": "bigstring", "size": 40002}
+            c = {"kind": "json", "text": t, "err": {"k": "syntax", "p": 40002 + 5 + 5}, "fault": "witness-d9", "term": "LF", "style": "bigstring", "size": 40002}
             c.update(args=["-c", "."], cb=[])
             if tr == "pipe":
                 c.update(transport="pipe", tr="pipe", name="<stdin>")
@@ -370,11 +375,16 @@ def yaml_cases(r, n):
         bad = r.choice(["bad: [1, 2", "x: }", "y: \"abc", "  - z: ]", "あ: [é, }", "k: {a: 1, ]"])
         pos = r.randint(0, len(lines))
         lines.insert(pos, bad)
-        pre = ""
+        known_at = None
+        if bad in ("x: }", "あ: [é, }"):
+            known_at = len(term.join(lines[:pos] + [""]).encode()) + len(bad.encode()) - 1
+        pre = Text()
         if r.random() < 0.4:
-            pre = ("p: [1, 2]" + term) * r.choice([10, 1500, 2500, 5000])
-        txt = pre + term.join(lines) + r.choice(["", term])
-        c = {"kind": "yaml", "text": Text().add(txt), "fault": "yaml", "term": term, "style": "yaml", "size": len(pre), "cb": []}
+            pre.add("p: [1, 2]" + term, r.choice([10, 1500, 2500, 5000]))
+        txt = term.join(lines) + r.choice(["", term])
+        c = {"kind": "yaml", "text": Text().extend(pre).add(txt), "fault": "yaml", "term": term, "style": "yaml", "size": len(pre), "cb": []}
+        if known_at is not None:
+            c["err"] = {"k": "syntax", "p": len(pre) + known_at}
         if r.random() < 0.5:
             c.update(transport="file", tr="whole", name="in.yaml", args=["--yaml-input", "-c", ".", "@FILE@"])
         else:
@@ -388,7 +398,7 @@ def yaml_cases(r, n):
 
 # tokens that cannot follow a complete term
 AFTER_TERM = ["1", "1.5e3", '"s"', '"あ"', "$x", "$__loc__", "@base64", "foo", "foo::bar", "$m::v", "..", "if", "def", "reduce",
-              "foreach", "try", "label", "import", "include", "null", "true", "false", "(", "{", "☆", "★", "あ", "&", "\\", "^", "~", "`",
+              "foreach", "try", "label", "import", "include", "null", "true", "false", "{", "☆", "★", "あ", "&", "\\", "^", "~", "`",
               "1a", "1.2.3", "0x1", "1e", "1e+", ('"a\\qb"', 2), ('"\\u12x4"', 1), "'"]
 # tokens that cannot follow an operator that wants a term
 AFTER_OP = [")", "]", "}", "then", "elif", "else", "end", "as", "catch", "and", "or", "|=", "=", "+=", "-=", "*=", "/=", "%=", "//=",
@@ -611,7 +621,7 @@ def case_from_replay(d):
     return c
 
 
-KNOWN = {"known_d9": F_D9, "known_d13": F_D13, "known_tok": F_TOK}
+KNOWN = {"known_d9": F_D9, "known_d13": F_D13, "known_tok": F_TOK, "known_yaml": F_YAML}
 
 
 def check_cases(rep, work, vh, gojq, cases, tag="t"):
